@@ -423,6 +423,11 @@ func natStep(n *Node, self int, f flags, view viewFn) *natOut {
 			{k: mkey{gasTab, oracleAcc}, v: g + responseGas}}, evs: []event{{gasTab, responseGas}, {oracleTab, id}}, cb: -1}
 	case natOracleFinish:
 		return nil
+	case natSetGas:
+		if !(f.r && f.w) || n.Nat.Val > maxGasPerBlock {
+			return nil
+		}
+		return &natOut{ws: []wnode{{k: mkey{gasPBTab, 0}, v: n.Nat.Val}}, cb: -1}
 	case natLock:
 		if !(f.r && f.w) {
 			return nil
@@ -996,7 +1001,7 @@ func imNode(n *Node, x ictx, s ist) (resKind, ist) {
 func covNative(n *Node, out *natOut) {
 	name := map[int]string{natRegCand: "registerCandidate", natUnregCand: "unregisterCandidate", natOracleReq: "oracle-request",
 		natLock: "lockDepositUntil", natWithdraw: "withdraw", natVoteP: "vote", natRevoke: "revoke-votes", natMint: "gas-reward-mint",
-		natNeoXferP: "neo-transfer", natUpdate: "update", natDestroyP: "destroy"}[n.Nat.Kind]
+		natNeoXferP: "neo-transfer", natUpdate: "update", natDestroyP: "destroy", natSetGas: "setGasPerBlock"}[n.Nat.Kind]
 	if name == "" {
 		return
 	}
